@@ -49,6 +49,8 @@ class Universe:
         self.names["Struct"] = 601
         self.base[602] = I.Enum("TypeLayer", "Void")
         self.names["Void"] = 602
+        self.base[603] = I.Enum("TypeLayer", "TemplateParam", {"0": I.Enum("TemplateTypeId", None, {"0": 0})})
+        self.names["TemplateParam"] = 603
         # arrays and object types (each parameterised object over float4; the slices / mips objects that indexing
         # produces are therefore in the universe too)
         f32, f324 = self.names.get("Float32"), self.names.get("Float324")
@@ -131,7 +133,9 @@ class Universe:
                         raise I.Unknown("const volatile is outside the model")
                     return tid(b + 1000 * (k or m))
             raise I.Unknown("modifier outside the model")
-        return {"TypeRegistry::register_type": register_type, "TypeRegistry::combine_modifier": combine_modifier,
+        def register_template_type(a):
+            return I.Enum("TemplateTypeId", None, {"0": 0})
+        return {"TypeRegistry::register_template_type": register_template_type, "TypeRegistry::register_type": register_type, "TypeRegistry::combine_modifier": combine_modifier,
                 "TypeRegistry::extract_modifier": extract_modifier, "TypeRegistry::get_type_layer": get_type_layer,
                 "TypeRegistry::extract_scalar": extract_scalar, "TypeRegistry::remove_modifier": remove_modifier}
 
